@@ -556,6 +556,93 @@ def step (w : World) : Event → World
 
 def run (w : World) (evs : List Event) : World := evs.foldl step w
 
+/-! ## two sides: a Sender world and a Receiver world sharing links
+
+Environment (explicit): a *link* is one TCP connection (or one pairing made by the transit relay)
+between a connection of the Sender's world and a connection of the Receiver's world.  Each end
+receives, in order and in arbitrary pieces, a prefix of what the other end wrote (`fwdSR`/`fwdRS`);
+through a relay each end first receives the relay's `ok\n` and the relay keeps the request line.
+Connections that are not an end of a link belong to *strangers* (anybody who can reach the port or
+answers a dialled address, including holders of a different key): they may send any bytes
+(`.s (.data i d)` / `.r (.data i d)`).  Connection loss, connect failures, timers and `connect()` of
+each side happen independently, in any order. -/
+
+structure Link where
+  sEnd : Nat            -- connection index in the Sender's world
+  rEnd : Nat            -- connection index in the Receiver's world
+  relay : Bool          -- both ends dialled the relay
+  deriving DecidableEq, Repr
+
+structure Duo where
+  s : World
+  r : World
+  links : List Link
+
+/-- what the peer end of a link receives from a connection that has written `out` -/
+def streamOf (relay : Bool) (out : List Bytes) : Bytes :=
+  if relay then Gen.Transit.RELAY_OK ++ (out.drop 1).flatten else out.flatten
+
+def sLinked (d : Duo) (i : Nat) : Bool := d.links.any (fun l => l.sEnd == i)
+def rLinked (d : Duo) (i : Nat) : Bool := d.links.any (fun l => l.rEnd == i)
+
+def kindAt (w : World) (k : Nat) : Option Kind := (w.cont[k]?).map (·.kind)
+def isRelayKind : Option Kind → Bool
+  | some (.relay _) => true
+  | _ => false
+
+inductive LinkHow where
+  | sListens (k : Nat)          -- the Receiver's direct connector `k` reaches the Sender's listening port
+  | rListens (k : Nat)          -- the Sender's direct connector `k` reaches the Receiver's listening port
+  | viaRelay (ks kr : Nat)      -- both sides' relay connectors are paired by the relay
+  deriving Repr
+
+inductive DEvent where
+  | s (e : Event) | r (e : Event)
+  | link (h : LinkHow)
+  | fwdSR (l n : Nat) | fwdRS (l n : Nat)
+  deriving Repr
+
+def mkLink (d : Duo) (ps pr : Option (World × Option Err)) (relay : Bool) : Duo :=
+  match ps, pr with
+  | some (s', _), some (r', _) =>
+    { s := s', r := r', links := d.links ++ [{ sEnd := d.s.n, rEnd := d.r.n, relay := relay }] }
+  | _, _ => d
+
+def dstep (d : Duo) : DEvent → Duo
+  | .s (.data i b) => if sLinked d i then d else { d with s := step d.s (.data i b) }
+  | .s e => { d with s := step d.s e }
+  | .r (.data i b) => if rLinked d i then d else { d with r := step d.r (.data i b) }
+  | .r e => { d with r := step d.r e }
+  | .link (.sListens k) =>
+    if kindAt d.r k = some .direct then mkLink d (evInbound d.s) (evConnected d.r k) false else d
+  | .link (.rListens k) =>
+    if kindAt d.s k = some .direct then mkLink d (evConnected d.s k) (evInbound d.r) false else d
+  | .link (.viaRelay ks kr) =>
+    if isRelayKind (kindAt d.s ks) && isRelayKind (kindAt d.r kr) then
+      mkLink d (evConnected d.s ks) (evConnected d.r kr) true
+    else d
+  | .fwdSR l n =>
+    match d.links[l]? with
+    | some L =>
+      (match d.s.conns L.sEnd, d.r.conns L.rEnd with
+       | some a, some b =>
+         { d with r := step d.r (.data L.rEnd (((streamOf L.relay a.out).drop b.rx.length).take n)) }
+       | _, _ => d)
+    | none => d
+  | .fwdRS l n =>
+    match d.links[l]? with
+    | some L =>
+      (match d.s.conns L.sEnd, d.r.conns L.rEnd with
+       | some a, some b =>
+         { d with s := step d.s (.data L.sEnd (((streamOf L.relay b.out).drop a.rx.length).take n)) }
+       | _, _ => d)
+    | none => d
+
+def drun (d : Duo) (evs : List DEvent) : Duo := evs.foldl dstep d
+
+def initDuo (cfgS cfgR : Cfg) (ls : Bool) (ds : Nat) (rs : List Nat) (lr : Bool) (dr : Nat) (rr : List Nat) : Duo :=
+  { s := initWorld cfgS ls ds rs, r := initWorld cfgR lr dr rr, links := [] }
+
 /-! ## driver (line protocol)
 
 ```
@@ -659,6 +746,118 @@ def drvStep (w : World) (line : String) : World × String :=
     | none => (w, "bad-op")
   | _ => (w, "bad-op")
 
-def driver (lines : List String) : List String := runLines drvStep drvInit lines
+/-! ### two-sided lines
+
+```
+duo <lS> <ndS> <relS> <lR> <ndR> <relR> <S.sendThis> <S.expectThis> <S.relayHs> <R.relayHs>   -> ok
+S <op…> | R <op…>            one-sided operation of that side (`data` only to unlinked connections)
+link s k | link r k | link y ks kr
+fwd SR l n | fwd RS l n      -> summary of both sides and the links, or `skip`
+```
+-/
+
+structure DrvSt where
+  w : World
+  duo : Option Duo
+
+def showLinks (d : Duo) : String :=
+  " ".intercalate (d.links.map fun l => s!"{l.sEnd}-{l.rEnd}{if l.relay then "y" else ""}")
+
+def showDuo (d : Duo) : String := s!"{showWorld d.s} || {showWorld d.r} || {showLinks d}"
+
+/-- parse a one-sided operation; the Boolean says whether it is possible now (the harness skips
+    impossible ones), the `Option Err` is the exception the real call lets escape -/
+def sideEvent (w : World) (linked : Nat → Bool) : List String → Option (Event × Option Err)
+  | ["inbound"] => (evInbound w).map fun p => (.inbound, p.2)
+  | ["connect"] => (evConnect w).map fun _ => (.connect, none)
+  | ["connected", k] => k.toNat?.bind fun k => (evConnected w k).map fun p => (.connected k, p.2)
+  | ["connfail", k] => k.toNat?.bind fun k => (evConnFail w k).map fun _ => (.connFail k, none)
+  | ["data", i, h] =>
+    match i.toNat?, fromHex? h with
+    | some i, some d =>
+      (match w.conns i with
+       | some c => if c.lost = 0 && !c.gone && !linked i then some (.data i d, (evData w i d).2) else none
+       | none => none)
+    | _, _ => none
+  | ["lost", i] =>
+    i.toNat?.bind fun i =>
+      (match w.conns i with
+       | some c => if !c.gone then some (.lost i, none) else none
+       | none => none)
+  | ["advance", dt] => dt.toNat?.map fun dt => (.advance dt, none)
+  | _ => none
+
+def duoOut (d : Duo) (raised : Option Err) : String :=
+  match raised with
+  | some e => "raised=" ++ e.name ++ " " ++ showDuo d
+  | none => showDuo d
+
+def duoStep (d : Duo) : List String → Duo × String
+  | "S" :: rest =>
+    (match sideEvent d.s (fun i => sLinked d i) rest with
+     | some (e, raised) => let d' := dstep d (.s e); (d', duoOut d' raised)
+     | none => (d, "skip"))
+  | "R" :: rest =>
+    (match sideEvent d.r (fun i => rLinked d i) rest with
+     | some (e, raised) => let d' := dstep d (.r e); (d', duoOut d' raised)
+     | none => (d, "skip"))
+  | ["link", how, k] =>
+    (match k.toNat? with
+     | some k =>
+       let ev := if how == "s" then DEvent.link (.sListens k) else DEvent.link (.rListens k)
+       let d' := dstep d ev
+       if d'.links.length = d.links.length then (d, "skip") else (d', showDuo d')
+     | none => (d, "bad-op"))
+  | ["link", "y", ks, kr] =>
+    (match ks.toNat?, kr.toNat? with
+     | some ks, some kr =>
+       let d' := dstep d (.link (.viaRelay ks kr))
+       if d'.links.length = d.links.length then (d, "skip") else (d', showDuo d')
+     | _, _ => (d, "bad-op"))
+  | ["fwd", dir, l, n] =>
+    (match l.toNat?, n.toNat? with
+     | some l, some n =>
+       (match d.links[l]? with
+        | some L =>
+          (match d.s.conns L.sEnd, d.r.conns L.rEnd with
+           | some a, some b =>
+             if dir == "SR" then
+               let chunk := ((streamOf L.relay a.out).drop b.rx.length).take n
+               if chunk.isEmpty || b.lost != 0 || b.gone then (d, "skip")
+               else let d' := dstep d (.fwdSR l n); (d', duoOut d' (evData d.r L.rEnd chunk).2)
+             else
+               let chunk := ((streamOf L.relay b.out).drop a.rx.length).take n
+               if chunk.isEmpty || a.lost != 0 || a.gone then (d, "skip")
+               else let d' := dstep d (.fwdRS l n); (d', duoOut d' (evData d.s L.sEnd chunk).2)
+           | _, _ => (d, "skip"))
+        | none => (d, "skip"))
+     | _, _ => (d, "bad-op"))
+  | _ => (d, "bad-op")
+
+def drvStep2 (st : DrvSt) (line : String) : DrvSt × String :=
+  match tokens line with
+  | ["reset"] => ({ w := drvInit, duo := none }, "ok")
+  | ["duo", lS, ndS, relS, lR, ndR, relR, s, e, yS, yR] =>
+    (match ndS.toNat?, ndR.toNat?, fromHex? s, fromHex? e, fromHex? yS, fromHex? yR,
+          (if relS == "-" then some [] else natList? (relS.splitOn ",")),
+          (if relR == "-" then some [] else natList? (relR.splitOn ",")) with
+     | some ndS, some ndR, some s, some e, some yS, some yR, some relS, some relR =>
+       ({ st with duo := some (initDuo
+           { isSender := true, sendThis := s, expectThis := e, relayHs := yS, recLayer := drvRecLayer, recRest := drvRecRest }
+           { isSender := false, sendThis := e, expectThis := s, relayHs := yR, recLayer := drvRecLayer, recRest := drvRecRest }
+           (lS == "1") ndS relS (lR == "1") ndR relR) }, "ok")
+     | _, _, _, _, _, _, _, _ => (st, "bad-op"))
+  | toks =>
+    match toks with
+    | t :: _ =>
+      if t == "S" || t == "R" || t == "link" || t == "fwd" then
+        (match st.duo with
+         | some d => let (d', out) := duoStep d toks; ({ st with duo := some d' }, out)
+         | none => (st, "bad-op"))
+      else let (w', out) := drvStep st.w line; ({ st with w := w' }, out)
+    | [] => (st, "bad-op")
+
+def driver (lines : List String) : List String := runLines drvStep2 { w := drvInit, duo := none } lines
+
 
 end WV.C07
